@@ -2,6 +2,7 @@ package zygo
 
 import (
 	"fmt"
+	"math"
 	"reflect"
 	"strconv"
 	"strings"
@@ -514,6 +515,12 @@ func (i *SexpUint64) SexpString(ps *PrintState) string {
 
 func (f *SexpFloat) SexpString(ps *PrintState) string {
 	if f.Scientific {
+		return strconv.FormatFloat(f.Val, 'e', -1, SexpFloatSize)
+	}
+	// 'f' prints an integral value without any mark of being a float. That
+	// is fine while it fits an int64 (it reads back as the equal integer),
+	// beyond that the digits would be read as an out-of-range integer.
+	if (f.Val >= 9.223372036854775807e18 || f.Val <= -9.223372036854775807e18) && !math.IsInf(f.Val, 0) {
 		return strconv.FormatFloat(f.Val, 'e', -1, SexpFloatSize)
 	}
 	return strconv.FormatFloat(f.Val, 'f', -1, SexpFloatSize)
